@@ -18,7 +18,8 @@ import (
 func init() {
 	register(&RuleSet{
 		ID: "C01",
-		Explanation: "R1 verification core (functions of package verify calling (*x509.Certificate).CheckSignature): ESP — a possibly-nil error return only after the chain check and the signature check both returned nil; content of the golden measurement is consumed for acceptance (functions taking *VMGoldenMeasurement, bytes.Equal on its fields) only after the signature check; static operands — chain check gets RootsOfTrust/Now of the options parameter, the signature is checked with the certificate returned by that chain check, algorithm constant x509.SHA256WithRSAPSS, message = the very field bytes that were unmarshalled into the golden measurement whose Cert was chain-checked (access-path equality, no store to the field anywhere in the repo's production code), signature operand = the endorsement's Signature. " +
+		Explanation: "R6 a function that calls recover() hands the recovered panic on as a non-nil error: it stores a value into an error-typed variable of the function it is deferred in (the named result); a recovering closure that writes no such variable makes the enclosing verification step return its zero value — nil, i.e. accepted — whenever anything inside it panics. " +
+			"R1 verification core (functions of package verify calling (*x509.Certificate).CheckSignature): ESP — a possibly-nil error return only after the chain check and the signature check both returned nil; content of the golden measurement is consumed for acceptance (functions taking *VMGoldenMeasurement, bytes.Equal on its fields) only after the signature check; static operands — chain check gets RootsOfTrust/Now of the options parameter, the signature is checked with the certificate returned by that chain check, algorithm constant x509.SHA256WithRSAPSS, message = the very field bytes that were unmarshalled into the golden measurement whose Cert was chain-checked (access-path equality, no store to the field anywhere in the repo's production code), signature operand = the endorsement's Signature. " +
 			"R3c the CLI's root-of-trust pool builders return a pool allocated empty by x509.NewCertPool (never the host store, a clone or a shared pool). " +
 			"R2 chain check (functions of package verify calling (*x509.Certificate).Verify): nil return only after Verify:ok on the certificate parsed from parameter 0, VerifyOptions has exactly Roots←parameter 1 and CurrentTime←parameter 2, Verify only after roots≠nil is known, returned certificate is the verified one. " +
 			"R3 entry points (exported functions / returned closures of verify, gcetcbendorsement, gcetcbendorsement/cmd that return error and receive roots of trust by type, plus CLI RunE functions that build a root pool): a possibly-nil return only after a call, that returned nil, of the core, of another entry point, or of go-sev-guest validate.SnpAttestation; every options literal carrying a CertPool built there takes pool and time from the entry point's own options (CLI: from the pool builder and the backend's Now), never from time.Now()/a fresh or system pool. " +
@@ -87,6 +88,7 @@ func receivesRoots(f *ssa.Function) bool {
 func returnsError(f *ssa.Function) bool { return errIndex(f.Signature) >= 0 }
 
 func runC01(c *Ctx) {
+	c01RecoveredPanicsAreErrors(c)
 	verifyPkg := repoPath("verify")
 	epbPkg := repoPath("proto/endorsement")
 	sl := flow.NewSlicer(c.P)
@@ -1401,3 +1403,50 @@ func unexportedRegion(top *ssa.Function) []*ssa.Function {
 }
 
 func isCertBytes(t types.Type) bool { return t.String() == "[]byte" }
+
+// c01RecoveredPanicsAreErrors is R6: in the repository's non-test code, every function that calls the builtin recover
+// turns what it recovered into an error of the function it protects: it contains a store into a captured variable of
+// type error (the enclosing function's named result). A recovering closure without such a store (for instance one
+// that declares a new `err` with := and only logs it) lets the enclosing function return the zero values of its
+// results after a panic: for a validator that is a nil error — acceptance without a completed verification.
+func c01RecoveredPanicsAreErrors(c *Ctx) {
+	n := 0
+	for _, f := range c.P.RepoFunctions() {
+		if c.isTestFunc(f) || f.Blocks == nil {
+			continue
+		}
+		var rec ssa.CallInstruction
+		for _, b := range f.Blocks {
+			for _, in := range b.Instrs {
+				if call, ok := in.(ssa.CallInstruction); ok {
+					if bi, ok := call.Common().Value.(*ssa.Builtin); ok && bi.Name() == "recover" {
+						rec = call
+					}
+				}
+			}
+		}
+		if rec == nil {
+			continue
+		}
+		n++
+		storesErr := false
+		for _, b := range f.Blocks {
+			for _, in := range b.Instrs {
+				st, ok := in.(*ssa.Store)
+				if !ok {
+					continue
+				}
+				fv, ok := st.Addr.(*ssa.FreeVar)
+				if !ok {
+					continue
+				}
+				if pt, ok := fv.Type().Underlying().(*types.Pointer); ok && types.Identical(pt.Elem(), types.Universe.Lookup("error").Type()) && !isNilK(st.Val) {
+					storesErr = true
+				}
+			}
+		}
+		c.S.Check(storesErr, "R6", load.FuncName(f)+":recovered panic becomes an error", c.pos(rec.Pos()), "the recovering function stores an error into a variable of the function it protects",
+			"recover() is called but nothing is stored into an error variable of the enclosing function: after a panic the protected function returns its zero results — a nil error, which a caller reads as success (a validator accepts without having finished verifying)")
+	}
+	c.S.OK("R6", "repository:recovering functions", "", fmt.Sprintf("%d functions calling recover() examined", n), false)
+}
